@@ -3,6 +3,7 @@ package h_gcsim
 import (
 	"context"
 	"fmt"
+	"strings"
 	"time"
 
 	v3 "github.com/projectcalico/api/pkg/apis/projectcalico/v3"
@@ -889,10 +890,12 @@ func (f *feed) run(ctx context.Context) {
 			if len(ks) == 0 {
 				break
 			}
+			// One ordered watch stream per resource kind: within a kind, keys are served in the order of their
+			// oldest undelivered write; across kinds the streams are independent and may overtake each other.
 			k := ks[0]
-			if !w.quiesced && len(ks) > 1 && src.Chance(w.pFeedReorder, "feed_reorder") {
-				k = ks[1+src.Intn(len(ks)-1, "feed_reorder_key")]
-				r.Fault("feed_reorder_across_keys")
+			if heads := kindHeads(ks); !w.quiesced && len(heads) > 1 && src.Chance(w.pFeedReorder, "feed_reorder") {
+				k = heads[1+src.Intn(len(heads)-1, "feed_reorder_kind")]
+				r.Fault("feed_reorder_across_kinds")
 			}
 			q := f.pending[k]
 			j := 0
@@ -917,6 +920,20 @@ func (f *feed) run(ctx context.Context) {
 			f.push(it)
 		}
 	}
+}
+
+// kindHeads: of the pending keys (oldest head first), the first one of each resource kind.
+func kindHeads(ks []string) []string {
+	var out []string
+	seen := map[string]bool{}
+	for _, k := range ks {
+		kind := k[:strings.Index(k, "/")]
+		if !seen[kind] {
+			seen[kind] = true
+			out = append(out, k)
+		}
+	}
+	return out
 }
 
 func describeItem(it *feedItem) string {
